@@ -77,7 +77,7 @@ PROPS = {
     'C01': {'scale': True, 'ties': ['tie_ladder', 'tie_docLadder', 'tie_readmeLadder', 'tie_tokenTypes'],
             'digests': pa(PARSER_LADDER + PARSER_PRIM + ['Parser.IfStatement', 'Parser.statement']), 'digest_groups': ['parserDigests'],
             'campaign': F.c01,
-            'partial': ['"adding parentheses never changes what a program prints" is proved for whole programs outside function bodies and object-literal initialisers (C18.redundant_parentheses_whole_program) and tested end to end for those two positions']},
+            'partial': ['"adding parentheses never changes what a program prints" is proved for whole programs outside function bodies (C18.redundant_parentheses_whole_program) and tested end to end there']},
     'C02': {'reexec': True, 'ties': ['tie_tokenTypes'], 'digests': it(*OPS) + ev('Binary', 'Unary') + it('toNumber', 'toInt64') + ['utilsDigests:ConvertBanglaDigitsToASCII'], 'campaign': E.c02,
             'partial': ['IEEE-754 exactness rests on the definitional F64 model tied to the host by correspondence', PLATFORM_NOTE]},
     'C03': {'twins': True, 'reexec': True, 'scale': True, 'volume': ['scopes', 'calls'], 'ties': [], 'digests': en(ENV_ALL) + ev('BlockStmt', 'ForStmt', 'VarStmt', 'VarListStmt', 'AssignmentStmt', 'Identifier', 'FunctionStmt') +
